@@ -103,3 +103,62 @@ def build(X):
     """)
     f.insert_at_body_start("proof { assert(pipeline@.len() > 0 ==> all_registered(self.relation_instances, pipeline@.drop_last())); } // @DS2", "proof hint: the precondition holds for the shorter pipeline")
     return PRELUDE + model + "\n" + st.text + "\n" + SHIMS + "impl AnchorContext {\n" + f.text + "\n}\n} // verus!\nfn main() {}\n"
+
+
+# ----------------------------------------------------------------------------- replay on the real compiler + SQLite: the column ORDER of a pipeline prefix matters where it is
+# consumed by position - the recursive CTE of `loop` binds the columns of its step to the columns of the prefix by position
+SETUP = ("create table emp(id integer, boss integer); create table dept(emp_id integer, floor integer); create table sal(emp_id integer, amount integer);"
+         "insert into emp values (1, 0), (2, 1); insert into dept values (1, 7), (2, 9); insert into sal values (1, 40), (2, 300);")
+CASES = [
+    ("from emp\nselect {id, boss}\njoin d = (from dept | select {emp_id, floor}) (id == d.emp_id)\njoin s = (from sal | select {emp_id, amount}) (id == s.emp_id)\n"
+     "loop (\n  filter amount < 100\n  select {id, boss, d_emp = d.emp_id, floor, s_emp = s.emp_id, amount = amount * 2}\n)\nsort {id, amount}\n",
+     [(1, 0, 1, 7, 1, 40), (1, 0, 1, 7, 1, 80), (1, 0, 1, 7, 1, 160), (2, 1, 2, 9, 2, 300)]),
+    ("from emp\nselect {id, boss}\njoin d = (from dept | select {emp_id, floor}) (id == d.emp_id)\nloop (\n  filter floor < 9\n  select {id, boss, emp_id = d.emp_id, floor = floor + 1}\n)\nsort {id, floor}\n",
+     [(1, 0, 1, 7), (1, 0, 1, 8), (1, 0, 1, 9), (2, 1, 2, 9)]),
+]
+
+
+def _try(src, exp):
+    import sqlite3
+    import replaylib
+    ok, sql = replaylib.compile_prql(src, "sql.sqlite")
+    if not ok:
+        return {"input": src, "expected": [list(r) for r in exp], "observed": sql[:300], "failing": True, "replay_kind": "rows"}
+    con = sqlite3.connect(":memory:")
+    con.executescript(SETUP)
+    ticks = [0]
+
+    def guard():        # a wrongly bound recursive step may never terminate
+        ticks[0] += 1
+        return 1 if ticks[0] > 2000 else 0
+    con.set_progress_handler(guard, 10000)
+    try:
+        rows = [tuple(r) for r in con.execute(sql).fetchall()]
+        got = [list(r) for r in rows]
+    except Exception as e:
+        rows, got = None, "sqlite error: %r\n%s" % (e, sql[:300])
+    return {"input": src, "expected": [list(r) for r in exp], "observed": got, "failing": rows != exp, "replay_kind": "rows", "sql": sql}
+
+
+def replay(failure):
+    for src, exp in CASES:
+        r = _try(src, exp)
+        if r["failing"]:
+            return r
+    return {"failing": False}
+
+
+def rerun(doc):
+    return _try(doc["input"], [tuple(r) for r in doc["expected"]])
+
+
+SWEEP_DOC = "`loop` after one and after two joins (the step's columns are bound to the prefix's columns by position): compiled for SQLite by the real prqlc and executed"
+
+
+def sweep():
+    out = []
+    for src, exp in CASES:
+        r = _try(src, exp)
+        r["obligation"] = "select_cols.DS1"
+        out.append(r)
+    return out
